@@ -170,6 +170,40 @@ def family(rnd, tier):
             except Exception:
                 continue
             out.append(("val-%s-%d" % (fname, v), b, False))
+    # enumeration fields whose value is a legal one plus a multiple of 2^8 / 2^16 / 2^24 (a narrower variable on the way
+    # would turn them into the legal value): all unsupported, must be refused
+    for fname, vals in (("comp_type", (256, 258, 512, 514, 65536, 65538, 2**24 + 2, 2**31 - 256, 2**31 - 254)),
+                        ("chunk_hash_type", (256, 257, 259, 65536 + 3, 2**24 + 1, 2**31 - 255)),
+                        ("hash_type", (256, 257, 65536 + 1, 2**24, 2**31 - 256)),
+                        ("flags", (256, 260, 65536 + 4, 2**24, 2**31))):
+        for v in vals:
+            kw = dict(entries=entries_for(base_sizes, 3, 0, rnd), data_digest=bytes(32))
+            if fname == "hash_type":
+                kw["hash_type_raw"] = ref.ci_enc(v)
+            else:
+                kw[fname] = v
+            for magic in (b"\0ZCK1", b"\0ZHR1"):
+                try:
+                    b = ref.build_header(magic=magic, **kw)
+                except Exception:
+                    continue
+                out.append(("trunc-%s-%d-%s" % (fname, v, magic[1:4].decode()), b, False))
+    # two integers of the lead spelled unusually at the same time: the checksum type padded to w bytes (legal), the header
+    # length padded, or carrying bits beyond 2^64 in its tenth byte (must be refused) - with w = 10 the second integer ends
+    # exactly where the 25-byte lead buffer ends
+    ents = entries_for(base_sizes, 3, 0, rnd)
+    plainb = ref.build_header(entries=ents, data_digest=bytes(32))
+    true_hl = ref.parse_header(plainb).header_length
+    def over64(v, top):      # ten bytes: the low 63 bits of v, then a tenth byte whose payload is `top` (bit 63 and beyond)
+        return bytes(((v >> (7 * k)) & 127) for k in range(9)) + bytes([0x80 | top])
+    for ht in (0, 1):
+        ents = entries_for(base_sizes, 3, 0, rnd)
+        thl = ref.parse_header(ref.build_header(hash_type=ht, entries=ents, data_digest=bytes(ref.DIGEST_SIZE[ht]))).header_length
+        for w in (1, 2, 5, 9, 10):
+            for hname, hraw, must in (("pad3", noncanon(thl, 3), True), ("pad10", noncanon(thl, 10), True), ("plus2^64", over64(thl, 2), False),
+                                      ("plus3x2^64", over64(thl, 6), False), ("plus2^63", over64(thl, 1), False)):
+                b = ref.build_header(hash_type=ht, hash_type_raw=noncanon(ht, w), header_length=hraw, entries=ents, data_digest=bytes(ref.DIGEST_SIZE[ht]))
+                out.append(("leadpair-ht%d-w%d-%s" % (ht, w, hname), b, False))
     # length fields pointing at / over the end of their buffer
     h0 = ref.build_header(entries=entries_for(base_sizes, 3, 0, rnd), data_digest=bytes(32))
     p0 = ref.parse_header(h0)
@@ -186,7 +220,11 @@ def family(rnd, tier):
             out.append(("short-hl-%d-%d" % (ht, hl), b, False))
     # optional elements: count and sizes against the end
     for (cnt, elems) in ((3, [(1, None, b"ab")]), (0, [(1, None, b"ab")]), (1, [(1, 200, b"ab")]), (1, [(1, 2**40, b"ab")]),
-                         (1, [(1, 2**64 - 1, b"ab")]), (2, [(1, None, b"ab"), (2, 60, b"")]), (2**32, [(1, None, b"a")]), (1, [(1, 61, b"")]), (1, [(1, 62, b"")]), (1, [(1, 63, b"")])):
+                         (1, [(1, 2**64 - 1, b"ab")]), (2, [(1, None, b"ab"), (2, 60, b"")]), (2**32, [(1, None, b"a")]), (1, [(1, 61, b"")]), (1, [(1, 62, b"")]), (1, [(1, 63, b"")]),
+                         # a declared size that wraps the cursor back onto the element itself (or to the count, the flags, the
+                         # start of the preface) under an element count nobody can iterate through
+                         (2**62, [(1, 2**64 - 11, b"")]), (2**63, [(1, 2**64 - 12, b"")]), (2**40, [(3, 2**64 - 22, b"")]), (2**62, [(1, 2**64 - 45, b"")]),
+                         (2**62, [(1, 2**64 - 11, b"xy")]), (2**64 - 1, [(2**64 - 1, 2**64 - 20, b"")])):
         b = ref.build_header(flags=2, entries=entries_for(base_sizes, 3, 0, rnd), data_digest=bytes(32), opt={"count": cnt, "elems": elems})
         out.append(("opt-%d-%s" % (cnt, elems[-1][1]), b, False))
     # trailing bytes inside the header
